@@ -155,6 +155,13 @@ func suiteFpDet(c *Ctx) error {
 		}
 		again, _ := diff.FingerprintSource(f0, src, ir.DefaultLiteralPolicy)
 		check("repeat", triples(again))
+		if i == n {
+			// the hand-shaped source is where an order dependence (a map range, a cache) shows: more draws
+			for k := 0; k < 10; k++ {
+				more, _ := diff.FingerprintSource(f0, src, ir.DefaultLiteralPolicy)
+				check("repeat", triples(more))
+			}
+		}
 		// pool history: unrelated functions in between
 		fo, _ := writeModule(c.Work, fmt.Sprintf("d%d_o", i), "a.go", other)
 		for k := 0; k < 3; k++ {
@@ -181,6 +188,16 @@ func suiteFpDet(c *Ctx) error {
 			fmt.Fprintf(&sb, "%s|%s|%s\n", rr.FunctionName, rr.Fingerprint, rr.CanonicalIR)
 		}
 		check("other-directory", sb.String())
+		// the same file reached through a symlinked directory (an absolute location like any other)
+		link := filepath.Join(c.Work, fmt.Sprintf("d%d_link", i))
+		if err := os.Symlink(filepath.Dir(f0), link); err == nil {
+			via, err := diff.FingerprintSource(filepath.Join(link, filepath.Base(f0)), src, ir.DefaultLiteralPolicy)
+			if err == nil {
+				check("symlinked-directory", triples(via))
+			} else {
+				c.Skip("symlinked_directory_load_failed")
+			}
+		}
 		// other processes, GOMAXPROCS 1 / 2 / 16 (fresh runtime, fresh pool, fresh map seeds)
 		procs := []int{1, 16}
 		if c.Tier == "thorough" {
